@@ -198,3 +198,40 @@ theorem bridge_default_weights :
     Gen.C09.default_weights = ["data_df[f'{col_prefix}weights'] = data_df[f'{col_prefix}turnout']"] := rfl
 
 end ElexModel.Units
+
+/-! ### the category decision with the source's own row predicates -/
+
+namespace ElexModel.Units
+
+/-- the precedence of `_get_non_modeled_units` (frames concatenated in this order, first occurrence kept) over the row predicates as
+    they are written in `/repo/src` today -/
+def categorySrc (c : Cfg) (r : Row) : Cat :=
+  if Gen.C09.blocklisted (c.unitBlock.contains r.id) (c.stateBlock.contains r.state) then .blocklisted
+  else if r.bw = 0 then .zeroBaseline
+  else if Gen.C09.is_reporting r.pev c.thr && Gen.C09.strange_turnout_factor r.tf c.tfLo c.tfHi then .strangeTF
+  else if Gen.C09.is_reporting r.pev c.thr && c.flaggedTF.contains r.id then .tfOutlier
+  else if Gen.C09.is_reporting r.pev c.thr && c.flaggedMargin.contains r.id then .marginOutlier
+  else .expected
+
+theorem categorySrc_eq (c : Cfg) (r : Row) : categorySrc c r = category c r := by
+  unfold categorySrc category
+  rw [← bridge_blocklisted, ← (bridge_reporting c r).1, ← bridge_strange]
+
+/-- **C09 on the source**: a unit is used to fit exactly when it is not blocklisted, has a non-zero baseline, is at or above the
+    threshold, has a turnout factor strictly inside the limits and is not flagged by an enabled outlier model -/
+theorem source_fit_iff (c : Cfg) (r : Row) :
+    (categorySrc c r = .expected ∧ Gen.C09.is_reporting r.pev c.thr = true) ↔
+      (blocklisted c r = false ∧ r.bw ≠ 0 ∧ c.thr ≤ r.pev ∧ c.tfLo < r.tf ∧ r.tf < c.tfHi ∧
+        r.id ∉ c.flaggedTF ∧ r.id ∉ c.flaggedMargin) := by
+  rw [categorySrc_eq, ← (bridge_reporting c r).1]; exact fit_iff c r
+
+/-- … and it is predicted exactly when it is not blocklisted, has a non-zero baseline and is below the threshold -/
+theorem source_predicted_iff (c : Cfg) (r : Row) :
+    (categorySrc c r = .expected ∧ Gen.C09.is_nonreporting r.pev c.thr = true) ↔
+      (blocklisted c r = false ∧ r.bw ≠ 0 ∧ r.pev < c.thr) := by
+  rw [categorySrc_eq, ← (bridge_reporting c r).2]
+  have := predicted_iff c r
+  simp only [Bool.not_eq_true'] at *
+  exact this
+
+end ElexModel.Units
